@@ -36,6 +36,27 @@ Reactor, the deprotection functions and the prepared reactors passes through the
                 one-shot products are among the exhaustive-mode products
    overlap      fix_mapping_overlap: results pairwise disjoint, each the same molecule as its input, first one untouched
    deprotect    exposed deprotection functions reach a fixpoint (no rule of the group matches the result)
+
+ Coverage audit (bounded/d16_extra.py lists what the first version never reached) added, under the same statement:
+   input-mutated / yield-mutated   the patched structure (snapshot taken BEFORE the patch: the frame pre-state), the caller's molecules and
+                products already yielded are not changed by later work of the generator
+   valence-h    "products are valence-valid" read with the library's own table (C04, check_implicit): a stored hydrogen count of a
+                product atom without aromatic bonds is one the valence rules allow, when the same atom's count was allowed in the input
+                (check_valence() only sees atoms without any count)
+   stereo-frame-allene / -cumulene  labelled allenes / cumulenes none of whose atoms is named and whose environment is unchanged keep
+                their configuration; stereo-override-bond: a label on a replacement bond is the sign relative to the replacement neighbours
+   numbering    Transformer: the multiset of products (automorphism filter off) does not depend on the numbering of the input
+                (descending / gaps / > 999); products compared atom by atom under the original numbers, no canonical strings
+   golden       hand-derived expected products for every replacement feature (molecule replacement, radical, isotope, charge, bond and
+                atom stereo labels, new / removed / triple bonds, delete_atoms=False, fix_aromatic_rings / fix_tautomers keywords) and the
+                repository's own test examples of reactor/test (not runnable in this environment), compared as the tests compare
+   metadata     copy_metadata=True copies the input's meta into a fresh dict, default leaves the product's meta empty (docstring)
+   reactor-count   one-shot Reactor: the patched matches are exactly the unions of one mapping per pattern over every assignment of
+                reactants to patterns (honours automorphism_filter);  reactor-limit1: polymerise_limit=1 gives the one-shot product sets;
+                reactor-sameobject: the same molecule object passed twice behaves as two copies
+   apply-all    deprotection.apply_all == the groups applied in order; returns the input when no rule matches
+   deprotect-shipped  the examples / decoys shipped in the deprotection rows (the repository's test_deprotection, not runnable here)
+   prepared     PreparedReactor one_shot=False / check_alerts=False / excess=[0]: unique numbers, valence, one-shot sets are among them
 """
 import copy
 import itertools
@@ -46,6 +67,7 @@ from vlib import env
 from vlib.report import pmap
 from bounded import domains
 from oracles.o16_deleted import removed_atoms
+from bounded.d16_extra import T_EXTRA, FIXED_EXTRA, GOLDEN, GOLDEN_R, SHIPPED_T, SHIPPED_R, R_EXTRA
 
 RULE = ('bounded: frame post-condition on BaseReactor._patcher for every product of synthetic, deprotection and reaction templates over a '
         'corpus sample; _get_deleted == reachability oracle on all small labelled graphs; relational contracts on Transformer/Reactor')
@@ -118,10 +140,16 @@ def install():
     def _patcher(self, structure, mapping):
         mu0 = dict(mapping)
         _LOG.append(mu0)
+        check = _BUDGET[0] > 0
+        snap = snapshot(structure) if check else None  # the frame's pre-state
         new = _ORIG['patcher'](self, structure, mapping)
-        if _BUDGET[0] > 0:
+        if check:
             _BUDGET[0] -= 1
-            post_condition(self, structure, mu0, dict(mapping), new, exact=not self._fix_rings, mode='real')
+            if snapshot(structure) != snap:
+                fire('input-mutated', f'the structure handed to the patcher was changed by the patch (match {mu0}): {diff_snap(snap, snapshot(structure))}',
+                     mapping=mu0)
+            # fix_aromatic_rings=False requested through the public keyword: the frame is exact whatever the instance attribute says
+            post_condition(self, structure, mu0, dict(mapping), new, exact=not self._fix_rings or bool(_CTX.get('exact')), mode='real')
             if self._fix_rings:
                 twin = copy.copy(self)
                 twin._fix_rings = False
@@ -134,10 +162,33 @@ def install():
     BaseReactor._patcher = _patcher
 
 
-def fire(clause, what, **native):
-    """one key per (clause, template, input): the automorphism-filter variant and the twin without ring fixing only add to the text"""
+def place(m):
+    """distinct coordinates (inputs read from SMILES have none): the frame also covers xy"""
+    for n, a in m._atoms.items():
+        a.xy = (n % 23 * .7 + .1, n % 7 * 1.3 + n // 23 * .01)
+
+
+def snapshot(m):
+    """every stored attribute of a molecule that C16 talks about, in storage order"""
+    bonds = m._bonds
+    return tuple((n, a.atomic_number, a.isotope, a.charge, a.is_radical, a.implicit_hydrogens, a.stereo,
+                  tuple((k, b.order, b.stereo) for k, b in bonds[n].items())) for n, a in m._atoms.items())
+
+
+def diff_snap(a, b):
+    if len(a) != len(b):
+        return f'{len(a)} atoms -> {len(b)} atoms'
+    for x, y in zip(a, b):
+        if x != y:
+            return f'atom record {x} -> {y}'
+    return 'no difference'
+
+
+def fire(clause, what, family=None, **native):
+    """one key per (clause, template, input): the automorphism-filter variant and the twin without ring fixing only add to the text.
+    family: key of a root-cause family decided by an independent predicate on the input (see the call sites)"""
     base = clause.split('/')[0]
-    k = f'{base}:{_CTX.get("template")}:{_CTX.get("input")}'
+    k = family or f'{base}:{_CTX.get("template")}:{_CTX.get("input")}'
     if sum(1 for v in _VIOL if v['key'].startswith(base + ':')) >= MAXV or any(v['key'] == k for v in _VIOL):
         return
     _VIOL.append({'key': k, 'what': f'{clause}: template {_CTX.get("template")}{_CTX.get("variant", "")} on {_CTX.get("input")}: {what}',
@@ -186,6 +237,7 @@ def post_condition(rx, S, mu0, mu1, N, exact, mode):
     new_pat = [n for n in rnums if n not in mu0]
     named_old = {mu0[n]: n for n in rnums if n in mu0}
     tag = '' if mode == 'real' else '/no-ring-fix'
+    h_exact = bool(_CTX.get('h_exact'))  # fix_tautomers=False requested: ring fixing moves no hydrogen
     _STAT['patches'] += 1
 
     # mapping, numbers
@@ -227,7 +279,9 @@ def post_condition(rx, S, mu0, mu1, N, exact, mode):
         if (sa.atomic_number, sa.isotope, sa.charge, sa.is_radical) != (na.atomic_number, na.isotope, na.charge, na.is_radical):
             fire('frame-attr' + tag, f'atom {v} not named by the template changed from {sa!r}/{sa.charge}/{sa.is_radical} to '
                  f'{na!r}/{na.charge}/{na.is_radical}', atom=v, mapping=mu0)
-        if sa.implicit_hydrogens != na.implicit_hydrogens and (exact or v not in region()[1]):
+        if (sa.x, sa.y) != (na.x, na.y):
+            fire('frame-xy' + tag, f'atom {v} not named by the template moved from {(sa.x, sa.y)} to {(na.x, na.y)}', atom=v, mapping=mu0)
+        if sa.implicit_hydrogens != na.implicit_hydrogens and (exact or h_exact or v not in region()[1]):
             fire('frame-h' + tag, f'atom {v} not named by the template: implicit H {sa.implicit_hydrogens} -> {na.implicit_hydrogens}',
                  atom=v, mapping=mu0)
         sn = {k: b.order for k, b in sb_[v].items() if k not in D}
@@ -315,6 +369,69 @@ def post_condition(rx, S, mu0, mu1, N, exact, mode):
                  f'replacement label {ra.stereo}', atom=v, mapping=mu0)
         else:
             _STAT['override-set'] += 1
+    # allenes and longer cumulenes of the untouched remainder (no atom of the chain named, environment unchanged)
+    cum_s = S.stereogenic_cumulenes
+    if cum_s:
+        cum_n = N.stereogenic_cumulenes
+        for path, e in cum_s.items():
+            if len(path) == 2:
+                continue  # plain double bonds: below
+            odd = len(path) % 2
+            c, c2 = path[len(path) // 2], path[len(path) // 2 - 1]
+            lab = sa_[c].stereo if odd else sb_[c2][c].stereo
+            if lab is None:
+                continue
+            if any(x in named_old or x not in na_ for x in path):
+                _STAT['cumulene-named-or-removed'] += 1
+                continue
+            if any(set(sb_[x]) != set(nb_[x]) for x in path):
+                _STAT['cumulene-env-changed'] += 1
+                continue
+            nl = na_[c].stereo if odd else nb_[c2][c].stereo
+            if nl is None:
+                _STAT['cumulene-dropped'] += 1
+                continue
+            kind = 'allene' if odd else 'cumulene'
+            pn = path if path in cum_n else path[::-1]
+            if pn not in cum_n or {x for x in cum_n[pn] if x is not None} != {x for x in e if x is not None}:
+                fire(f'stereo-frame-{kind}' + tag, f'{kind} {list(path)}: label kept although its stereogenic environment changed', atoms=list(path), mapping=mu0)
+                continue
+            try:
+                if odd:
+                    s1, s2 = S._translate_allene_sign(c, e[0], e[1]), N._translate_allene_sign(c, e[0], e[1])
+                else:
+                    s1, s2 = S._translate_cis_trans_sign(path[0], path[-1], e[0], e[1]), N._translate_cis_trans_sign(path[0], path[-1], e[0], e[1])
+            except KeyError:
+                continue
+            if s1 != s2:
+                fire(f'stereo-frame-{kind}' + tag, f'{kind} {list(path)} (no atom named, environment unchanged) changed its configuration', atoms=list(path), mapping=mu0)
+            else:
+                _STAT[kind + '-kept'] += 1
+    # stereo label on a replacement bond: sign relative to the replacement neighbours (one on each end: unambiguous)
+    for n, m in itertools.combinations(rnums, 2):
+        rb = Rp._bonds[n].get(m)
+        if rb is None or rb.stereo is None:
+            continue
+        a, b = mu1[n], mu1[m]
+        if a not in na_ or b not in nb_[a]:
+            continue
+        rn, rm = [k for k in Rp._bonds[n] if k != m], [k for k in Rp._bonds[m] if k != n]
+        if len(rn) != 1 or len(rm) != 1:
+            _STAT['override-bond-ambiguous'] += 1
+            continue
+        if nb_[a][b].stereo is None:
+            _STAT['override-bond-dropped'] += 1
+            continue
+        try:
+            sg = N._translate_cis_trans_sign(a, b, mu1[rn[0]], mu1[rm[0]])
+        except KeyError:
+            fire('stereo-override-bond' + tag, f'double bond {a}={b}: labelled, but the replacement neighbours {mu1[rn[0]]},{mu1[rm[0]]} are not its substituents', bond=[a, b])
+            continue
+        if sg != rb.stereo:
+            fire('stereo-override-bond' + tag, f'double bond {a}={b}: sign relative to the replacement neighbours ({mu1[rn[0]]},{mu1[rm[0]]}) is not the '
+                 f'replacement label {rb.stereo}', bond=[a, b], mapping=mu0)
+        else:
+            _STAT['override-bond-set'] += 1
     # cis-trans
     for (a, b), e in S.stereogenic_cis_trans.items():
         if b not in sb_[a] or sb_[a][b].stereo is None or a not in na_ or b not in na_ or b not in nb_[a]:
@@ -343,6 +460,25 @@ def post_condition(rx, S, mu0, mu1, N, exact, mode):
         bad = N.check_valence()
         if bad:
             fire('valence', f'valence-valid input, product atoms {bad} have no valid valence', atoms=bad, mapping=mu0)
+    # valence, stored hydrogen counts (library's own valence table, C04): allowed in the input => allowed in the product
+    if mode == 'real':
+        requested = {mu1[n] for n in new_pat if Rp._atoms[n].implicit_hydrogens not in (None, ())}  # H count dictated by the template
+        for v, na in na_.items():
+            h = na.implicit_hydrogens
+            if h is None or v in requested or any(b.order == 4 for b in nb_[v].values()):
+                continue
+            unnamed = v in sa_ and v not in named_old
+            if unnamed:
+                sa = sa_[v]
+                if sa.implicit_hydrogens is None or any(b.order == 4 for b in sb_[v].values()) or not S.check_implicit(v, sa.implicit_hydrogens):
+                    continue
+            if not N.check_implicit(v, h):
+                # root-cause family, decided on the input and the template only: an atom the template does not name is bonded to an atom
+                # that is removed, survives (another path to a remaining matched atom) and carries the hydrogen count it had
+                dangling = unnamed and any(k in D for k in sb_[v]) and h == sa_[v].implicit_hydrogens
+                fire('valence-h', f'match {mu0}: product atom {v} ({na.atomic_symbol}, bonds {sorted((k, b.order) for k, b in nb_[v].items())}) stores '
+                     f'{h} implicit H, which the valence rules do not allow' + (' (unnamed neighbour of a removed atom keeps its old count)' if dangling else ''),
+                     family='valence-h:unnamed-neighbour-of-removed-atom' if dangling else None, atom=v, mapping=mu0)
 
 
 # ------------------------------------------------------------------------------------------------------------- jobs
@@ -350,13 +486,14 @@ _TCACHE = {}
 
 
 def transformer_of(job):
-    from chython import smarts, Transformer
+    from chython import smarts, smiles, Transformer
     from chython.reactor import deprotection
     k = (job['kind'], job.get('name'), job.get('group'), job.get('rule'), job.get('af', True))
     if k not in _TCACHE:
         if job['kind'] == 'syn':
-            spec = next(t for t in T_SYN if t['name'] == job['name'])
-            _TCACHE[k] = (Transformer(smarts(spec['p']), smarts(spec['r']), automorphism_filter=job['af'], **spec.get('kw', {})), spec)
+            spec = next(t for t in T_SYN + T_EXTRA if t['name'] == job['name'])
+            repl = smiles(spec['rmol']) if 'rmol' in spec else smarts(spec['r'])
+            _TCACHE[k] = (Transformer(smarts(spec['p']), repl, automorphism_filter=job['af'], **spec.get('kw', {})), spec)
         else:
             r, p, *_ = getattr(deprotection, '_' + job['group'])[job['rule']]
             _TCACHE[k] = (Transformer(smarts(r), smarts(p)), {'name': f'{job["group"]}[{job["rule"]}]', 'p': r, 'r': p})
@@ -364,21 +501,56 @@ def transformer_of(job):
 
 
 def reactor_of(job):
-    from chython import smarts, Reactor
+    """flip: the other mode (one-shot <-> exhaustive); lim1: exhaustive mode with polymerise_limit=1 (boundary of the documented range)"""
+    from chython import smarts, smiles, Reactor
     from chython.reactor import reactions
-    k = ('R', job['kind'], job['name'], job.get('idx'), job.get('flip', False))
+    k = ('R', job['kind'], job['name'], job.get('idx'), job.get('flip', False), job.get('lim1', False))
     if k not in _TCACHE:
         if job['kind'] == 'rsyn':
-            spec = next(t for t in R_SYN if t['name'] == job['name'])
+            spec = next(t for t in R_SYN + R_EXTRA if t['name'] == job['name'])
             kw = dict(spec.get('kw', {}))
-            if job.get('flip'):
+            if job.get('lim1'):
+                kw.update(one_shot=False, polymerise_limit=1)
+            elif job.get('flip'):
                 kw['one_shot'] = not kw.get('one_shot', True)
                 kw.setdefault('polymerise_limit', 2)
-            _TCACHE[k] = Reactor(tuple(smarts(x) for x in spec['ps']), tuple(smarts(x) for x in spec['rs']), **kw)
+            prods = tuple(smiles(x) for x in spec['rmols']) if 'rmols' in spec else tuple(smarts(x) for x in spec['rs'])
+            _TCACHE[k] = Reactor(tuple(smarts(x) for x in spec['ps']), prods, **kw)
         else:
             pr = getattr(reactions, job['name'])
-            _TCACHE[k] = (pr.rxn_ms if job.get('flip') else pr.rxn_os)[job['idx']]
+            if job.get('lim1'):
+                R0 = pr.rxn_os[job['idx']]
+                _TCACHE[k] = Reactor(R0._patterns, R0._products, one_shot=False, polymerise_limit=1, automorphism_filter=False)
+            else:
+                _TCACHE[k] = (pr.rxn_ms if job.get('flip') else pr.rxn_os)[job['idx']]
     return _TCACHE[k]
+
+
+def spec_kw(job):
+    if job['kind'] == 'rsyn':
+        return next(t for t in R_SYN + R_EXTRA if t['name'] == job['name']).get('kw', {})
+    return {}
+
+
+REN_MODES = ('reverse', 'gaps', 'big')
+
+
+def renumbered(m, mode):
+    """copy of m with other atom numbers (storage order kept): descending / with gaps / descending and > 999"""
+    nums = list(m)
+    mp = {'reverse': lambda i: len(nums) - i, 'gaps': lambda i: 7 * i + 3, 'big': lambda i: 1999 - 2 * i}[mode]
+    c = m.copy()
+    c.remap({n: mp(i) for i, n in enumerate(nums)})
+    return c
+
+
+def job_input(job):
+    """the molecule a Transformer job runs on (replay)"""
+    t = job['input']
+    m = domains.parse(t[4:], normalise=False) if t.startswith('raw:') else domains.parse(t)
+    if job.get('ren'):
+        m = renumbered(m, job['ren'])
+    return m
 
 
 def exact_same(p, m):
@@ -399,23 +571,46 @@ def run_transformer(job, m, text, out):
     """all Transformer-level contracts for one (template, molecule); wrapper contracts fire through _VIOL"""
     T, spec = transformer_of(job)
     name = spec['name']
-    _CTX.update(template=name, input=text, job={**job, 'input': text}, variant='' if job.get('af', True) else ' (automorphism_filter=False)')
+    kw = spec.get('kw', {})
+    ren = job.get('ren')
+    _CTX.update(template=name, input=text + (f' [numbering {ren}]' if ren else ''), job={**job, 'input': text},
+                variant=('' if job.get('af', True) else ' (automorphism_filter=False)'),
+                exact=kw.get('fix_aromatic_rings') is False, h_exact=kw.get('fix_tautomers') is False)
     del _LOG[:]
     _BUDGET[0] = K_CHECK
+    m.meta['b16'] = text
+    place(m)
+    before = snapshot(m)
+    prods, sigs = [], []
     try:
-        prods = list(T(m))
+        for p in T(m):
+            prods.append(p)
+            if len(sigs) < K_CHECK:
+                sigs.append(snapshot(p))
     except Exception as e:
         fire('raises', f'template application raised {type(e).__name__}: {e}', error=repr(e), mapping=_LOG[-1] if _LOG else None)
         _BUDGET[0] = 0
-        return 0
+        return []
     _BUDGET[0] = 0
+    if snapshot(m) != before:
+        fire('input-mutated', f'the input molecule was changed by the template application: {diff_snap(before, snapshot(m))}')
+    for j, (p, sg) in enumerate(zip(prods, sigs)):
+        if snapshot(p) != sg:
+            fire('yield-mutated', f'product {j} changed after it was yielded: {diff_snap(sg, snapshot(p))}')
+            break
+    for p in prods[:K_CHECK]:  # docstring of Transformer: copy_metadata
+        if kw.get('copy_metadata'):
+            if p.meta != m.meta or p.meta is m.meta:
+                fire('metadata', f'copy_metadata=True: product meta {dict(p.meta)} (shared dict: {p.meta is m.meta}), input meta {dict(m.meta)}')
+        elif p.meta:
+            fire('metadata', f'copy_metadata not requested: product meta {dict(p.meta)}')
     maps = list(T._pattern.get_mapping(m, automorphism_filter=job.get('af', True), _cython=False))
     out[0] += 1
     if len(prods) != len(maps) or _LOG != maps:
         fire('count', f'{len(prods)} products for {len(maps)} mappings of the pattern (patched mappings {_LOG[:3]}, search gives {maps[:3]})',
              products=len(prods), mappings=len(maps))
     if not prods:
-        return 0
+        return prods
     if spec.get('identity'):
         for p in prods[:K_CHECK]:
             d = None if p == m else f'product {p} != input {m}'
@@ -430,7 +625,55 @@ def run_transformer(job, m, text, out):
     out[1].append(f'{name}|{text}')
     out[1].append(f'branch:{spec.get("branch", "built-in deprotection")}|{text}')
     out[0] += min(len(prods), K_CHECK) * 2
-    return len(prods)
+    return prods
+
+
+def signature(p, back):
+    """numbering-independent record of a product: atoms of the input are called by their ORIGINAL numbers (back: product number -> original
+    number), new atoms by their rank; attributes, bonds and every stereo label as the sign relative to the neighbours sorted by these names
+    (no canonical string involved: C01 has a numbering-dependent tie for one labelled centre of two constitutionally equivalent ones)"""
+    new = sorted(n for n in p._atoms if n not in back)
+    lab = {n: (0, back[n]) if n in back else (1, new.index(n)) for n in p._atoms}
+    atoms = sorted((lab[n], a.atomic_number, a.isotope, a.charge, a.is_radical, a.implicit_hydrogens) for n, a in p._atoms.items())
+    bonds = sorted((min(lab[n], lab[k]), max(lab[n], lab[k]), b.order) for n, k, b in p.bonds())
+    st = []
+    tet, alle = p.stereogenic_tetrahedrons, p.stereogenic_allenes
+
+    def first(*ks):
+        return min((k for k in ks if k is not None), key=lab.get)
+    for n, a in p._atoms.items():
+        if a.stereo is None:
+            continue
+        if n in tet:
+            st.append(('t', lab[n], p._translate_tetrahedron_sign(n, sorted(tet[n], key=lab.get))))
+        elif n in alle:
+            e = alle[n]
+            x, y = first(e[0], e[2]), first(e[1], e[3])
+            if lab[y] < lab[x]:
+                x, y = y, x
+            st.append(('a', lab[n], p._translate_allene_sign(n, x, y)))
+        else:
+            st.append(('?', lab[n], a.stereo))
+    for (a, b), e in p.stereogenic_cis_trans.items():
+        c1, c2 = p._stereo_cis_trans_centers[a]
+        if p._bonds[c1][c2].stereo is None:
+            continue
+        st.append(('c', tuple(sorted((lab[a], lab[b]))), p._translate_cis_trans_sign(a, b, first(e[0], e[2]), first(e[1], e[3]))))
+    return tuple(atoms), tuple(bonds), tuple(sorted(st))
+
+
+def numbering_contract(base, got, out, m, m2):
+    """Transformer: the multiset of products does not depend on the numbering of the input (context = the renumbered job).
+    m2 is renumbered(m, mode): same storage order, other numbers"""
+    out[0] += 1
+    a = Counter(signature(p, dict(zip(m2, m))) for p in got)
+    b = Counter(signature(p, {n: n for n in m}) for p in base)
+    if a != b:
+        fire('numbering', f'products change with the numbering of the input ({len(got)} / {len(base)} products; compared atom by atom under the '
+             f'original numbers, stereo as signs on neighbours sorted by original number): only renumbered '
+             f'{sorted({str(p) for p in got if b[signature(p, dict(zip(m2, m)))] != a[signature(p, dict(zip(m2, m)))]})[:3]}, only original '
+             f'{sorted({str(p) for p in base if b[signature(p, {n: n for n in m})] != a[signature(p, {n: n for n in m})]})[:3]}',
+             renumbered=sorted(str(p) for p in got)[:8], original=sorted(str(p) for p in base)[:8])
 
 
 def prodkey(r):
@@ -439,6 +682,15 @@ def prodkey(r):
 
 def prodkey_flat(r):
     return tuple(sorted(format(p, '!s') for p in r.products))
+
+
+def iso_equal(x, y):
+    """two reactions have the same products, judged without canonical strings where the strings differ (oracles.o01_stereo: isomorphism
+    including configuration) - C01 has numbering-dependent strings outside its two gaps (known family c01:partially-labelled-twin)"""
+    from oracles.o01_stereo import stereo_isomorphic
+    px, py = sorted(x.products, key=lambda q: format(q, '!s')), sorted(y.products, key=lambda q: format(q, '!s'))
+    return len(px) == len(py) and all(str(a) == str(b) or (format(a, '!s') == format(b, '!s') and stereo_isomorphic(a, b) is True)
+                                      for a, b in zip(px, py))
 
 
 def same_sets(base, got):
@@ -455,7 +707,42 @@ def same_sets(base, got):
             {prodkey_flat(x) for x in got} == {prodkey_flat(x) for x in base}:
         _STAT['c01-gap-hits'] += 1
         return True, [], []
+    if all(any(iso_equal(x, y) for y in base) for x in da) and all(any(iso_equal(x, y) for y in got) for x in db):
+        _STAT['c01-string-tie-hits'] += 1
+        return True, [], []
     return False, sorted(set(a) - set(b)), sorted(set(b) - set(a))
+
+
+def subset_sets(small, big):
+    """product tuples of the reactions `small` are among those of `big` (same treatment of the two documented gaps of C01 as same_sets).
+    Returns (ok, missing keys)"""
+    from oracles.o01_gaps import gaps
+    a, b = {prodkey(x): x for x in small}, {prodkey(x) for x in big}
+    miss = [k for k in a if k not in b]
+    if not miss:
+        return True, []
+    if all(any(any(gaps(p)) for p in a[k].products) for k in miss) and {prodkey_flat(a[k]) for k in miss} <= {prodkey_flat(x) for x in big}:
+        _STAT['c01-gap-hits'] += 1
+        return True, []
+    if all(any(iso_equal(a[k], y) for y in big) for k in miss):
+        _STAT['c01-string-tie-hits'] += 1
+        return True, []
+    return False, sorted(miss)
+
+
+def without_spectator(rs, sp):
+    """the reactions with one product equal to the spectator removed (None: a reaction lacks it)"""
+    out = []
+    for x in rs:
+        ps = list(x.products)
+        for j, q in enumerate(ps):
+            if str(q) == sp:
+                del ps[j]
+                break
+        else:
+            return None
+        out.append(types.SimpleNamespace(products=ps))
+    return out
 
 
 def call_reactor(R, mols):
@@ -463,22 +750,51 @@ def call_reactor(R, mols):
     a truncated list is never used in a set comparison"""
     import time
     t0 = time.time()
-    rs = []
+    rs, sigs = [], []
+    capped = False
     for x in R(*mols):
         rs.append(x)
+        if len(sigs) < K_CHECK:
+            sigs.append(tuple(snapshot(p) for p in x.products))
         if len(rs) >= CAP_R or time.time() - t0 > T_REACTOR[0]:
-            return rs, True
-    return rs, False
+            capped = True
+            break
+    for j, (x, sg) in enumerate(zip(rs, sigs)):  # later work of the generator must not touch what it already yielded
+        if tuple(snapshot(p) for p in x.products) != sg:
+            fire('yield-mutated', f'products of reaction {j} changed after the reaction was yielded')
+            break
+    return rs, capped
+
+
+def expected_matches(R, mols):
+    """one-shot Reactor: multiset of matches = for every assignment of reactants to the patterns, one mapping per pattern, united"""
+    from itertools import permutations, product
+    from chython.reactor.reactor import fix_mapping_overlap
+    ss = fix_mapping_overlap(mols)
+    exp = Counter()
+    for chosen in permutations(range(len(ss)), len(R._patterns)):
+        lists = [list(q.get_mapping(ss[c], automorphism_filter=R._automorphism_filter, _cython=False)) for q, c in zip(R._patterns, chosen)]
+        for combo in product(*lists):
+            d = {}
+            for x in combo:
+                d.update(x)
+            exp[frozenset(d.items())] += 1
+    return exp
 
 
 def run_reactor(job, texts, out):
     """Reactor-level relational contracts for one reactant tuple"""
     R = reactor_of(job)
     name = job['name'] + (f'[{job["idx"]}]' if 'idx' in job else '')
-    _CTX.update(template=name, input=' + '.join(texts), job={**job, 'inputs': list(texts)}, variant='')
+    kw = spec_kw(job)
+    _CTX.update(template=name, input=' + '.join(texts), job={**job, 'inputs': list(texts)}, variant='',
+                exact=kw.get('fix_aromatic_rings') is False, h_exact=kw.get('fix_tautomers') is False)
     r = domains.rnd('b16r' + name + '|'.join(texts))
     mols = [domains.parse(t) for t in texts]
     valid = not any(m.check_valence() for m in mols)
+    for m in mols:
+        place(m)
+    before = [snapshot(m) for m in mols]
     del _LOG[:]
     _BUDGET[0] = K_CHECK
     try:
@@ -488,7 +804,18 @@ def run_reactor(job, texts, out):
         _BUDGET[0] = 0
         return 0
     _BUDGET[0] = 0
+    log0 = list(_LOG)
     out[0] += 1
+    if [snapshot(m) for m in mols] != before:
+        fire('input-mutated', 'a reactant molecule of the caller was changed by the Reactor call')
+    if R._one_shot and not capped:  # one product per distinct match
+        exp = expected_matches(R, mols)
+        got = Counter(frozenset(x.items()) for x in log0)
+        out[0] += 1
+        if exp != got:
+            fire('reactor-count', f'{sum(got.values())} patched matches, the patterns have {sum(exp.values())} (automorphism_filter='
+                 f'{R._automorphism_filter}); only patched {[dict(x) for x in (got - exp)][:2]}, never patched {[dict(x) for x in (exp - got)][:2]}',
+                 patched=sum(got.values()), expected=sum(exp.values()))
     if not base:
         return 0
     bset = Counter(prodkey(x) for x in base)
@@ -519,6 +846,9 @@ def run_reactor(job, texts, out):
         c.remap({n: n + 1000 * (i + 1) for n in list(c)})
         dis.append(c)
     variants.append(('disjoint-numbers', dis))
+    if len(texts) == 2 and texts[0] == texts[1]:  # the same object twice: fix_mapping_overlap has to copy it
+        one = domains.parse(texts[0])
+        variants.append(('sameobject', [one, one]))
     for vn, ms in variants:
         try:
             got, cp = call_reactor(R, ms)
@@ -534,17 +864,18 @@ def run_reactor(job, texts, out):
     # spectator
     sp = domains.parse(SPECTATOR)
     if not any(p <= sp for p in R._patterns):
+        pos = r.choice((0, len(mols)))  # spectator first or last
         try:
-            got, cp = call_reactor(R, mols + [sp])
+            got, cp = call_reactor(R, mols[:pos] + [sp] + mols[pos:])
         except Exception as e:
             fire('raises', f'reactor raised {type(e).__name__}: {e} with a spectator molecule', error=repr(e))
             got, cp = [], True
         out[0] += 1
         if not cp:
-            exp = {tuple(sorted(k + (str(sp),))) for k in bset}
-            g = {prodkey(x) for x in got}
-            if g != exp:
-                fire('reactor-spectator', f'with spectator {sp}: product sets {sorted(g)[:2]} expected {sorted(exp)[:2]}')
+            rest = without_spectator(got, str(sp))
+            ok, oa, ob = same_sets(base, rest) if rest is not None else (False, ['a reaction without the spectator among its products'], [])
+            if not ok:
+                fire('reactor-spectator', f'with spectator {sp}: products besides the spectator only with it {oa[:2]}, only without it {ob[:2]}')
             for x in got:
                 c = Counter(n for p in x.products for n in p)
                 if any(v > 1 for v in c.values()):
@@ -559,9 +890,22 @@ def run_reactor(job, texts, out):
     out[0] += 1
     _STAT['reactor-capped'] += cp
     if not cp:
-        one, exh = (set(bset), {prodkey(x) for x in other}) if R._one_shot else ({prodkey(x) for x in other}, set(bset))
-        if not one <= exh:
-            fire('reactor-modes', f'one-shot products missing from exhaustive mode: {sorted(one - exh)[:2]}')
+        ok, miss = subset_sets(*((base, other) if R._one_shot else (other, base)))
+        if not ok:
+            fire('reactor-modes', f'one-shot products missing from exhaustive mode: {miss[:2]}')
+        # boundary of the documented range: polymerise_limit=1 allows no second stage
+        R3 = reactor_of({**job, 'lim1': True})
+        try:
+            lim, cp3 = call_reactor(R3, mols)
+        except Exception as e:
+            fire('raises', f'reactor (polymerise_limit=1) raised {type(e).__name__}: {e}', error=repr(e))
+            lim, cp3 = [], True
+        out[0] += 1
+        _STAT['reactor-capped'] += cp3
+        if not cp3:
+            ok, oa, ob = same_sets([x for x in (base if R._one_shot else other)], lim)
+            if not ok:
+                fire('reactor-limit1', f'exhaustive mode with polymerise_limit=1 differs from one-shot mode: only with limit 1 {oa[:2]}, only one-shot {ob[:2]}')
     out[1].append(f'{name}|{_CTX["input"]}')
     out[1].append(f'branch:{job.get("branch", "built-in reaction")}|{_CTX["input"]}')
     return len(base)
@@ -596,7 +940,96 @@ def overlap_contract(texts, out):
         fire('overlap', 'an input molecule was renumbered in place')
 
 
+def overlap_variants(texts, out):
+    """fix_mapping_overlap on three molecules, partially overlapping numbers with gaps, already disjoint numbers, a single molecule"""
+    from chython.reactor.reactor import fix_mapping_overlap
+    from oracles.o01_gaps import gaps
+    t0, t1 = texts[0], texts[-1]
+
+    def build(kind):
+        a, b = domains.parse(t0), domains.parse(t1)
+        if kind == 'triple':
+            return [a, b, domains.parse(t0)]
+        if kind == 'partial':  # b overlaps the upper half of a, numbers with gaps
+            b.remap({n: 2 * k + max(1, len(a) // 2) for k, n in enumerate(list(b))})
+            return [a, b]
+        if kind == 'disjoint':
+            b.remap({n: n + 1000 for n in list(b)})
+            return [b, a]
+        if kind == 'sameobject':
+            return [a, a, b]
+        return [a]
+    for kind in ('triple', 'partial', 'disjoint', 'sameobject', 'single'):
+        _CTX.update(template='fix_mapping_overlap', input=f'{t0} + {t1} [{kind}]', job={'kind': 'overlap-variant', 'inputs': list(texts), 'variant': kind},
+                    variant='', exact=False, h_exact=False)
+        ms = build(kind)
+        before = [snapshot(m) for m in ms]
+        strs = [str(m) for m in ms]
+        out[0] += 1
+        try:
+            res = fix_mapping_overlap(ms)
+        except Exception as e:
+            fire('overlap', f'fix_mapping_overlap raised {type(e).__name__}: {e}', error=repr(e))
+            continue
+        c = Counter(n for m in res for n in m)
+        if any(v > 1 for v in c.values()):
+            fire('overlap', f'numbers still collide: {[n for n, v in c.items() if v > 1][:6]}')
+        if len(res) != len(ms) or res[0] is not ms[0]:
+            fire('overlap', 'results are not the input molecules (first one untouched)')
+        else:
+            for a, b, sa in zip(ms, res, strs):
+                if len(a) != len(b) or (str(b) != sa and not (any(gaps(a)) and format(a, '!s') == format(b, '!s'))):
+                    fire('overlap', f'result {b} is not the input molecule {sa}')
+                    break
+        if [snapshot(m) for m in ms] != before:
+            fire('overlap', 'an input molecule was renumbered in place')
+
+
+def prepared_options(job, texts, out):
+    """PreparedReactor keywords never passed before: check_alerts=False, one_shot=False, excess=[0]; every call is time-capped, a truncated
+    call takes part in no set comparison"""
+    import time
+    from chython.reactor import reactions
+    pr = getattr(reactions, job['name'])
+    valid = not any(domains.parse(t).check_valence() for t in texts)
+
+    def consume(**kw):
+        _CTX.update(template=f'reactions.{job["name"]}', input=' + '.join(texts) + f' {kw}', job={**job, 'inputs': list(texts), 'prepared': kw},
+                    variant='', exact=False, h_exact=False)
+        ms = [domains.parse(t) for t in texts]
+        keys, t1, capped = [], time.time(), False
+        _BUDGET[0] = K_CHECK
+        try:
+            for x in pr(*ms, **kw):
+                c = Counter(k for p in x.products for k in p)
+                if any(v > 1 for v in c.values()):
+                    fire('reactor-numbers', f'prepared reactor {kw}: products share atom numbers: {x}', reaction=str(x))
+                if valid and any(p.check_valence() for p in x.products):
+                    fire('valence', f'prepared reactor {kw}: valence-valid reactants, invalid product in {x}', reaction=str(x))
+                keys.append(types.SimpleNamespace(products=list(x.products)))
+                out[0] += 1
+                if len(keys) >= CAP_R or time.time() - t1 > T_PREPARED[0]:
+                    capped = True
+                    break
+        except Exception as e:
+            fire('raises', f'prepared reactor {kw} raised {type(e).__name__}: {e}', error=repr(e))
+            capped = True
+        _BUDGET[0] = 0
+        _STAT['prepared-capped'] += capped
+        return keys, capped
+    base, c0 = consume()
+    for kw in ({'check_alerts': False}, {'one_shot': False}, {'one_shot': False, 'excess': [0]}):
+        got, c1 = consume(**kw)
+        if 'excess' not in kw and not c0 and not c1:
+            ok, miss = subset_sets(base, got)
+            if not ok:
+                fire('prepared', f'products of the default call are missing with {kw}: {miss[:2]}')
+        if got:
+            out[1].append(f'prepared{sorted(kw)}|{job["name"]}|{" + ".join(texts)}')
+
+
 # ------------------------------------------------------------------------------------------------------------ work items
+T_PREPARED = [2.]
 _MOLS = []
 _RPAT = []      # distinct reactant patterns of built-in + synthetic reactors: (smarts text, query)
 _PAIRS = []
@@ -613,25 +1046,38 @@ def _collect(out):
 
 def _mol_item(i):
     from chython.reactor import deprotection
-    text, full = _MOLS[i]
+    text, full, ren, fixed = _MOLS[i]
     out = [0, [], []]
     try:
         m = domains.parse(text)
     except Exception:
         return _collect(out) + ([],)
     if full:
-        for spec in T_SYN:
+        m2 = renumbered(m, ren) if ren else None
+        for k, spec in enumerate(T_SYN + T_EXTRA):
             for af in (True, False):
-                n = run_transformer({'kind': 'syn', 'name': spec['name'], 'af': af}, m, text, out)
+                if not af and m2 is None and k >= len(T_SYN):
+                    continue  # the added templates run without the filter only where the numbering contract needs it
+                prods = run_transformer({'kind': 'syn', 'name': spec['name'], 'af': af}, m, text, out)
+                n = len(prods)
                 if n and af and i % 29 == 0 and len(out[2]) < 2:
-                    out[2].append({'template': spec['name'], 'pattern': spec['p'], 'replacement': spec['r'], 'input': text, 'products': n})
+                    out[2].append({'template': spec['name'], 'pattern': spec['p'], 'replacement': spec.get('r', spec.get('rmol')), 'input': text, 'products': n})
+                if m2 is not None and not af:
+                    # numbering: all matches (with the filter the surviving one of several matches to the same atoms may depend on the
+                    # enumeration order, and a symmetric pattern with an asymmetric replacement then gives another product)
+                    got = run_transformer({'kind': 'syn', 'name': spec['name'], 'af': af, 'ren': ren}, m2, text, out)
+                    if n <= 200:
+                        numbering_contract(prods, got, out, m, m2)
+                    if got:
+                        out[1].append(f'numbering-{ren}:{spec["name"]}|{text}')
     hit_groups = []
     for g in deprotection._groups:
         for j in range(len(getattr(deprotection, '_' + g))):
             if run_transformer({'kind': 'deprot', 'group': g, 'rule': j}, m, text, out):
                 hit_groups.append(g)
     for g in dict.fromkeys(hit_groups):  # exposed functions: fixpoint
-        _CTX.update(template=f'deprotection.{g}', input=text, job={'kind': 'deprot-fn', 'group': g, 'input': text}, variant='')
+        _CTX.update(template=f'deprotection.{g}', input=text, job={'kind': 'deprot-fn', 'group': g, 'input': text}, variant='',
+                    exact=False, h_exact=False)
         _BUDGET[0] = K_CHECK
         try:
             res = getattr(deprotection, g)(m)
@@ -648,6 +1094,30 @@ def _mol_item(i):
         if m.check_valence() == [] and res.check_valence():
             fire('valence', f'deprotection.{g}: invalid valence in {res}', result=str(res))
         out[1].append(f'deprotection.{g}|{text}')
+    if hit_groups or fixed:  # apply_all: on every molecule some rule matches, and on the fixed / shipped molecules
+        _CTX.update(template='deprotection.apply_all', input=text, job={'kind': 'deprot-fn', 'group': 'apply_all', 'input': text}, variant='',
+                    exact=False, h_exact=False)
+        _BUDGET[0] = K_CHECK
+        try:
+            res = deprotection.apply_all(m)
+            _BUDGET[0] = 0
+            exp = m
+            for g in deprotection._groups:
+                exp = getattr(deprotection, g)(exp)
+        except Exception as e:
+            fire('raises', f'deprotection.apply_all raised {type(e).__name__}: {e}', error=repr(e))
+        else:
+            out[0] += 1
+            if str(res) != str(exp) or exact_same(res, exp):
+                fire('apply-all', f'apply_all gives {res}, the groups applied in their order give {exp}', result=str(res))
+            if not hit_groups and (res != m or exact_same(res, m)):
+                fire('apply-all', f'no rule matches, apply_all returned {res}', result=str(res))
+            if m.check_valence() == [] and res.check_valence():
+                fire('valence', f'deprotection.apply_all: invalid valence in {res}', result=str(res))
+            if hit_groups:
+                out[1].append(f'deprotection.apply_all|{text}')
+        finally:
+            _BUDGET[0] = 0
     cls = [k for k, (s, q) in enumerate(_RPAT) if len(m) <= 40 and q <= m] if full else []
     return _collect(out) + (cls,)
 
@@ -675,10 +1145,149 @@ def _pair_item(i):
         except Exception as e:
             fire('raises', f'prepared reactor raised {type(e).__name__}: {e}', error=repr(e))
         _BUDGET[0] = 0
+        if i % 4 == 0:
+            prepared_options(job, texts, out)
     if n and i % 17 == 0:
         out[2].append({'reactor': job['name'], 'reactants': texts, 'reactions': n})
     overlap_contract(texts, out)
+    overlap_variants(texts, out)
     _STAT['seconds'] = round(time.time() - t0, 2)
+    return _collect(out)
+
+
+# ------------------------------------------------------------------------------------- documented / hand-derived examples
+_EXTRA = []
+
+
+def _gin(t):
+    return domains.parse(t[4:], normalise=False) if t.startswith('raw:') else domains.parse(t)
+
+
+def _gkey(ms):
+    return tuple(sorted(str(x) + ' ' + format(x, 'h') for x in ms))
+
+
+def _repl(r):
+    from chython import smarts, smiles
+    return smiles(r[4:]) if r.startswith('mol:') else smarts(r)
+
+
+def run_extra(job, out):
+    from chython import smarts, smiles, Transformer, Reactor
+    from chython.reactor import deprotection
+    kind = job['kind']
+    _BUDGET[0] = 0
+    if kind == 'golden':
+        pt, r, kw, t, exp = GOLDEN[job['idx']]
+        _CTX.update(template=f'{pt}>>{r} {kw}', input=t, job=job, variant='', exact=False, h_exact=False)
+        out[0] += 1
+        try:
+            got = sorted(_gkey([x]) for x in Transformer(smarts(pt), _repl(r), **kw)(_gin(t)))
+        except Exception as e:
+            fire('raises', f'template application raised {type(e).__name__}: {e}', error=repr(e))
+            return
+        e = sorted(_gkey([_gin(x)]) for x in exp)
+        if got != e:
+            fire('golden', f'products {[x[0] for x in got]}, the template requests {[x[0] for x in e]} (canonical string + string with explicit H counts)',
+                 products=[x[0] for x in got])
+        out[1].append(f'golden|{pt}>>{r}|{kw}|{t}')
+    elif kind == 'golden-r':
+        ps, rs, kw, ts, exp = GOLDEN_R[job['idx']]
+        _CTX.update(template=f'{".".join(ps)}>>{".".join(rs)} {kw}', input=' + '.join(ts), job=job, variant='', exact=False, h_exact=False)
+        out[0] += 1
+        try:
+            R = Reactor(tuple(smarts(x) for x in ps), tuple(_repl(x) for x in rs), **kw)
+            got = sorted(_gkey(x.products) for x in R(*[_gin(t) for t in ts]))
+        except Exception as e:
+            fire('raises', f'reactor raised {type(e).__name__}: {e}', error=repr(e))
+            return
+        e = sorted(_gkey([_gin(x) for x in row]) for row in exp)
+        if got != e:
+            fire('golden', f'reactions give {got}, the template requests {e}', products=[list(x) for x in got])
+        out[1].append(f'golden-r|{ps}>>{rs}|{kw}|{ts}')
+    elif kind == 'shipped-t':  # chython/reactor/test/test_transformer.py, compared as the test does
+        pt, r, t, exp = SHIPPED_T[job['idx']]
+        _CTX.update(template=f'{pt}>>{r}', input=t, job=job, variant='', exact=False, h_exact=False)
+        out[0] += 1
+        try:
+            got = {format(x, 'h') for x in Transformer(smarts(pt), smarts(r))(smiles(t))}
+        except Exception as e:
+            fire('raises', f'template application raised {type(e).__name__}: {e}', error=repr(e))
+            return
+        e = {format(smiles(x), 'h') for x in exp}
+        if got != e:
+            fire('golden', f'repository test example: products {sorted(got)}, documented {sorted(e)}', products=sorted(got))
+        out[1].append(f'shipped-t|{pt}>>{r}|{t}')
+    elif kind == 'shipped-r':  # chython/reactor/test/test_reactor.py
+        ps, rs, ts, exp = SHIPPED_R[job['idx']]
+        _CTX.update(template=f'{".".join(ps)}>>{".".join(rs)}', input=' + '.join(ts), job=job, variant='', exact=False, h_exact=False)
+        out[0] += 1
+        try:
+            rx = next(Reactor([smarts(x) for x in ps], [smarts(x) for x in rs])(*(smiles(x) for x in ts)), None)
+        except Exception as e:
+            fire('raises', f'reactor raised {type(e).__name__}: {e}', error=repr(e))
+            return
+        got = {format(x, 'h') for x in rx.products} if rx is not None else set()
+        e = {format(smiles(x), 'h') for x in exp}
+        if got != e:
+            fire('golden', f'repository test example: products {sorted(got)}, documented {sorted(e)}', products=sorted(got))
+        out[1].append(f'shipped-r|{ps}>>{rs}')
+    elif kind == 'empty':  # no atoms / fewer molecules than patterns: no product, no error
+        from chython import MoleculeContainer
+        _CTX.update(template='[C:1]-[Br:2]>>[A:1]-[O:3]', input='empty inputs', job=job, variant='', exact=False, h_exact=False)
+        out[0] += 1
+        try:
+            from chython.reactor.reactor import fix_mapping_overlap
+            T = Transformer(smarts('[C:1]-[Br:2]'), smarts('[A:1]-[O:3]'))
+            R = Reactor((smarts('[C:1]-[Br:2]'), smarts('[N:3]-[C:4]')), (smarts('[A:1]-[A:3]-[A:4]'),))
+            got = [list(T(MoleculeContainer())), list(R()), list(R(smiles('CBr'))), list(R(smiles('CBr'), MoleculeContainer())),
+                   list(fix_mapping_overlap([]))]
+        except Exception as e:
+            fire('raises', f'empty input raised {type(e).__name__}: {e}', error=repr(e))
+            return
+        if got != [[], [], [], [], []]:
+            fire('golden', f'empty molecule / too few reactants: products {got}, expected none')
+        out[1].append('golden|empty')
+    elif kind == 'deprot-shipped':  # chython/reactor/test/test_deprotection.py: example, answer, decoys of one row; selectivity over all rows
+        g, j = job['group'], job['rule']
+        q, pr, t, a, *bs = getattr(deprotection, '_' + g)[j]
+        _CTX.update(template=f'{g}[{j}]', input=t, job=job, variant='', exact=False, h_exact=False)
+        out[0] += 1
+
+        def can(x):
+            x = smiles(x)
+            x.canonicalize()
+            return x
+        try:
+            tm, am, qq = can(t), can(a), smarts(q)
+            if not qq < tm:
+                fire('deprotect-shipped', f'the rule does not match its own example {t}')
+                return
+            o = next(Transformer(qq, smarts(pr))(tm))
+            if o != am:
+                fire('deprotect-shipped', f'example {t}: product {o}, documented {am}', product=str(o))
+            for b in bs:
+                if qq < can(b):
+                    fire('deprotect-shipped', f'the rule matches its decoy {b}')
+            for ren in REN_MODES:  # the same example under other atom numbers
+                o2 = getattr(deprotection, g)(renumbered(can(t), ren))
+                if o2 != am:
+                    fire('deprotect-shipped', f'example {t} numbered {ren}: deprotection.{g} gives {o2}, documented {am}', product=str(o2))
+            others = []
+            for g2 in deprotection._groups:
+                for j2, row in enumerate(getattr(deprotection, '_' + g2)):
+                    if len(row) > 2 and (g2, j2) != (g, j) and smarts(row[0]) < tm:
+                        others.append(f'{g2}[{j2}]')
+            if others:
+                fire('deprotect-shipped', f'example {t} is also matched by the rules {others} (the rows are documented as selective)')
+        except Exception as e:
+            fire('raises', f'deprotection example raised {type(e).__name__}: {e}', error=repr(e))
+        out[1].append(f'deprot-shipped|{g}[{j}]')
+
+
+def _extra_item(i):
+    out = [0, [], []]
+    run_extra(_EXTRA[i], out)
     return _collect(out)
 
 
@@ -750,7 +1359,8 @@ def bounded(run):
                'text says atoms not named keep their stereo; the code flushes labels only on named reaction centres) - counted as '
                'unnamed-centre-lost-a-neighbour',
                'contract reading 2: Reactor product sets are compared as sets of canonical strings; when they differ only for products inside the two '
-               'documented gaps of C01 (oracles/o01_gaps.py, predicates fixed in DESIGN section 2 C01: stereo labels on centres with constitutionally '
+               'documented gaps of C01 or by a numbering-dependent string tie (decided by oracles/o01_stereo.stereo_isomorphic, counted as '
+               'c01-string-tie-hits) (oracles/o01_gaps.py, predicates fixed in DESIGN section 2 C01: stereo labels on centres with constitutionally '
                'equivalent substituents, symmetric cages) the stereo-free strings are compared instead and the case is counted as c01-gap-hits',
                'ring fixing on products (kekule + thiele, documented Reactor/Transformer option, default on) may re-label bond orders within {1,2,4} '
                'and move H inside ring blocks that contain a patched atom or a neighbour of a removed atom; everything is exact on the '
@@ -762,12 +1372,20 @@ def bounded(run):
     stats = Counter()
     total = {'n': 0}
     per_clause = Counter()
+    hits = Counter()
 
     def absorb(res):
         for cases, keys, samples, viol, st, *rest in res:
             run.case(cases)
             for k in keys:
                 run.case(0, key=k)
+                head = k.split('|')[0]
+                if head.startswith('branch:'):
+                    hits[head[7:]] += 1
+                elif head.startswith('numbering-'):
+                    hits[head.split(':')[0]] += 1
+                elif head.startswith(('golden', 'shipped', 'deprot-shipped', 'prepared', 'deprotection.apply_all')):
+                    hits[head] += 1
             for s in samples:
                 run.case(0, sample=s)
             stats.update(st)
@@ -798,21 +1416,27 @@ def bounded(run):
         for r, p, *ts in getattr(deprotection, '_' + g):
             tests.extend(ts)
     screen = [s for s in domains.corpus_sample(n_screen, 'b16screen') if s not in fullset]
-    _MOLS[:] = [(s, True) for s in FIXED] + [(s, True) for s in full] + [(s, False) for s in dict.fromkeys(tests)] + [(s, False) for s in screen]
+    ren_every = 2 if thorough else 4
+    _MOLS[:] = [(s, True, REN_MODES[k % 3], True) for k, s in enumerate(FIXED + FIXED_EXTRA)] + \
+               [(s, True, REN_MODES[k % 3] if k % ren_every == 0 else None, False) for k, s in enumerate(full)] + \
+               [(s, False, None, True) for s in dict.fromkeys(tests)] + [(s, False, None, False) for s in screen]
     seen = {}
     for name in reactions.__all__[2:]:
         for R in getattr(reactions, name).rxn_os:
             for q in R._patterns:
                 seen.setdefault(str(q), q)
-    for spec in R_SYN:
+    for spec in R_SYN + R_EXTRA:
         for s in spec['ps']:
             seen.setdefault(s, smarts(s))
     _RPAT[:] = list(seen.items())
     nrules = sum(len(getattr(deprotection, '_' + g)) for g in deprotection._groups)
-    for txt in (f'Transformer domain: {len(FIXED)} fixed molecules + {len(full)} corpus molecules (seeded) x {len(T_SYN)} synthetic templates '
-                f'(one per patcher branch) x automorphism filter on/off; all {nrules} deprotection rules ({len(deprotection._groups)} groups) x '
+    for txt in (f'Transformer domain: {len(FIXED) + len(FIXED_EXTRA)} fixed molecules (incl. isotope-labelled, radical, charged, explicit-H, single-atom, '
+                f'allene / cumulene, tautomeric inputs) + {len(full)} corpus molecules (seeded) x {len(T_SYN) + len(T_EXTRA)} synthetic templates '
+                f'(one per patcher branch / replacement feature / Transformer keyword) x automorphism filter on/off; numbering: every fixed molecule '
+                f'and every {ren_every}th corpus molecule once more under other atom numbers (descending / gaps / descending > 999 in turn), filter off, '
+                f'product multisets compared when <= 200 products; all {nrules} deprotection rules ({len(deprotection._groups)} groups) x '
                 f'(those molecules + the {len(set(tests))} test/decoy molecules shipped with the rules + {len(screen)} further corpus molecules); '
-                f'exposed deprotection functions on every molecule a rule matched',
+                f'exposed deprotection functions and apply_all on every molecule a rule matched; apply_all also on the fixed and shipped molecules',
                 f'full post-condition (real product + twin without ring fixing) on the first {K_CHECK} products of each template application; '
                 f'count contract on all of them'):
         run.bound(txt)
@@ -821,8 +1445,20 @@ def bounded(run):
     sec['transformers'] = round(time.time() - t0, 1)
 
     # ---- reactors: reactant pools from the classification of the full molecules
+    # ---- documented / hand-derived examples
+    _EXTRA[:] = [{'kind': 'golden', 'idx': k} for k in range(len(GOLDEN))] + [{'kind': 'golden-r', 'idx': k} for k in range(len(GOLDEN_R))] + \
+                [{'kind': 'empty'}] + [{'kind': 'shipped-t', 'idx': k} for k in range(len(SHIPPED_T))] + [{'kind': 'shipped-r', 'idx': k} for k in range(len(SHIPPED_R))] + \
+                [{'kind': 'deprot-shipped', 'group': g, 'rule': j} for g in deprotection._groups
+                 for j, row in enumerate(getattr(deprotection, '_' + g)) if len(row) > 2]
+    run.bound(f'examples: {len(GOLDEN)} Transformer and {len(GOLDEN_R)} Reactor template/input pairs with hand-derived expected products (one per '
+              f'replacement feature and keyword), the {len(SHIPPED_T) + len(SHIPPED_R)} examples of the repository\'s reactor tests, the '
+              f'{sum(1 for j in _EXTRA if j["kind"] == "deprot-shipped")} deprotection rows that ship an example (example -> answer, decoys, selectivity against '
+              f'every other row, the example under {len(REN_MODES)} other numberings)')
+    absorb(pmap(_extra_item, range(len(_EXTRA)), chunksize=2))
+    sec['examples'] = round(time.time() - t0, 1)
+
     pools = {}
-    for (text, fl), r in zip(_MOLS, res):
+    for (text, *_), r in zip(_MOLS, res):
         for k in r[5]:
             pools.setdefault(_RPAT[k][0], []).append(text)
     r = domains.rnd('b16pairs')
@@ -843,13 +1479,25 @@ def bounded(run):
     for spec in R_SYN:
         for t in tuples_for(spec['ps'], kpairs * 3):
             _PAIRS.append(({'kind': 'rsyn', 'name': spec['name'], 'branch': spec['branch']}, list(t)))
+    for spec in R_EXTRA:
+        for t in tuples_for(spec['ps'], kpairs):
+            _PAIRS.append(({'kind': 'rsyn', 'name': spec['name'], 'branch': spec['branch']}, list(t)))
+    for spec in R_SYN[:2] + R_EXTRA[:3]:  # the same molecule as both reactants (same object passed twice is one of the variants)
+        both = sorted(set(pools.get(spec['ps'][0], [])) & set(pools.get(spec['ps'][1], [])))
+        for t in both[:2 if not thorough else 8]:
+            _PAIRS.append(({'kind': 'rsyn', 'name': spec['name'], 'branch': 'same molecule twice'}, [t, t]))
     nb = 0
     for name in reactions.__all__[2:]:
         for idx, R in enumerate(getattr(reactions, name).rxn_os):
             for t in tuples_for(R._patterns, kpairs):
                 _PAIRS.append(({'kind': 'rbuiltin', 'name': name, 'idx': idx}, list(t)))
                 nb += 1
-    run.bound(f'Reactor domain: {len(R_SYN)} synthetic reactors (two reactants with colliding numbers, two products, exhaustive mode) and the '
+    T_PREPARED[0] = 4. if thorough else 1.
+    run.bound(f'PreparedReactor keywords (check_alerts=False, one_shot=False, excess=[0]): every fourth tuple, '
+              f'{T_PREPARED[0]} s / {CAP_R} reactions per call; fix_mapping_overlap: every tuple also as triple / partially overlapping numbers with gaps / '
+              f'disjoint numbers / same object twice / single molecule; Reactor calls also with polymerise_limit=1, the spectator first or last (seeded)')
+    run.bound(f'Reactor domain: {len(R_SYN)} + {len(R_EXTRA)} synthetic reactors (two / three reactants with colliding numbers, two products, exhaustive mode, '
+              f'automorphism_filter=False, delete_atoms=False, fix_aromatic_rings=False, fix_tautomers=False, molecule products) and the '
               f'{sum(len(getattr(reactions, n).rxn_os) for n in reactions.__all__[2:])} reactors of the {len(reactions.__all__) - 2} prepared reaction '
               f'collections x reactant tuples drawn (seeded, <= {kpairs} per reactor, {kpairs * 3} per synthetic) from the molecules (<= 40 atoms) of the '
               f'sample that match each reactant pattern: {len(_PAIRS)} tuples ({nb} built-in); each in base / reversed order / renumbered / '
@@ -860,6 +1508,8 @@ def bounded(run):
     for (job, texts), r_ in sorted(zip(_PAIRS, pres), key=lambda x: -x[1][4].get('seconds', 0))[:3]:
         slow.append({'reactor': job['name'], 'reactants': texts, 'seconds': r_[4].get('seconds')})
     run.notes['post-condition statistics'] = dict(stats)
+    run.notes['inputs per patcher branch / option / example class (a branch with 0 inputs would be vacuous)'] = \
+        {**{t['branch']: 0 for t in T_SYN + T_EXTRA + R_SYN + R_EXTRA}, **dict(hits)}
     run.notes['violations_total_before_cap'] = total['n']
     run.notes['reactor pools'] = {k: len(v) for k, v in pools.items()}
 
@@ -875,12 +1525,21 @@ def replay(rec):
         got, exp = get_deleted_case(adj, {int(k): v for k, v in job['labels'].items()})
         return got == exp
     if job['kind'] in ('syn', 'deprot'):
-        run_transformer(job, domains.parse(job['input']), job['input'], out)
+        if job.get('ren'):
+            m1, m2 = job_input({**job, 'ren': None}), job_input(job)
+            base = run_transformer({k: v for k, v in job.items() if k != 'ren'}, m1, job['input'], out)
+            numbering_contract(base, run_transformer(job, m2, job['input'], out), out, m1, m2)
+        else:
+            run_transformer(job, job_input(job), job['input'], out)
     elif job['kind'] == 'deprot-fn':
-        _MOLS[:] = [(job['input'], False)]
+        _MOLS[:] = [(job['input'], False, None, True)]
         return not _mol_item(0)[3]
     elif job['kind'] == 'overlap':
         overlap_contract(job['inputs'], out)
+    elif job['kind'] == 'overlap-variant':
+        overlap_variants(job['inputs'], out)
+    elif job['kind'] in ('golden', 'golden-r', 'shipped-t', 'shipped-r', 'deprot-shipped', 'empty'):
+        run_extra(job, out)
     else:
         _PAIRS[:] = [({k: v for k, v in job.items() if k not in ('inputs', 'prepared')}, job['inputs'])]
         r = _pair_item(0)
